@@ -80,14 +80,8 @@ def walk(ctx, module, cfg, plan, n, depth, deep, tag, col, selftest=False):
         for qi in range(len(model.queries)):
             ctx.distinct_cases.add((tag, ik, qi))
     if selftest:
-        # the binding is real: falsify one expectation (first Next of every graph) and the adapter must object
-        probe = dict(cases[len(cases) // 2])
-        probe["id"] = 0
-        probe["corrupt"] = 1
-        pv = ctx.run_cases(binary, "walk", [probe], workers=1, name="selftest-" + tag, timeout_ms=600000)
-        if pv[0].get("ok") or not isinstance(pv[0].get("obs"), list):
-            raise Inconclusive("self-test: a falsified expectation was not noticed by the adapter: %r" % (pv[0].get("key"),))
-        ctx.note("self-test: falsified expectation rejected (%s)" % pv[0].get("key"))
+        from props.C08 import selftest_walk
+        selftest_walk(ctx, binary, cases, col)
     return model, cases
 
 
